@@ -54,7 +54,7 @@ type actObs struct {
 	Redir    bool                `json:"redirected"`
 }
 
-const hdrT, hdrO = "X-Bfe-T", "X-Other"
+const hdrT, hdrO = "X-Bfe-T", "X-Bfe-T-Other"
 
 type recWriter struct {
 	h    bfe_http.Header
